@@ -73,13 +73,29 @@ inductive Dim where
   | mol | mass | vol | other
   deriving DecidableEq, Repr, Inhabited
 
-/-- One line of the unit table: `factor` converts the base unit of the dimension
-(kmol/hr, kg/hr, m3/hr) to this unit (`AbsoluteUnitsOfMeasure.conversion_factor`). -/
+/-- pint's dimensionality of a unit as exponents over the base dimensions
+[length, mass, time, substance, temperature, current, luminosity, anything else] -/
+abbrev DimVec := List Int
+
+def molDim : DimVec := [0, 0, -1, 1, 0, 0, 0, 0]      -- kmol/hr
+def massDim : DimVec := [0, 1, -1, 0, 0, 0, 0, 0]     -- kg/hr
+def volDim : DimVec := [3, 0, -1, 0, 0, 0, 0, 0]      -- m^3/hr
+
+/-- `Stream._get_flow_name_and_factor`: the unit's dimensionality is compared with the dimensionalities of the three
+base flow units, in this order; anything else is not a flow unit -/
+def classify (v : DimVec) : Dim :=
+  if v = molDim then .mol else if v = massDim then .mass else if v = volDim then .vol else .other
+
+/-- One line of the unit table: pint's dimensionality vector of the unit, and `factor`, which converts the base unit of
+its dimension (kmol/hr, kg/hr, m3/hr) to this unit (`AbsoluteUnitsOfMeasure.conversion_factor`; 0 for non-flow units). -/
 structure UnitDef where
   name : String
-  dim : Dim
+  dimv : DimVec
   factor : Rat
   deriving DecidableEq, Repr, Inhabited
+
+/-- the flow dimension of the unit, decided as the code decides it -/
+def UnitDef.dim (d : UnitDef) : Dim := classify d.dimv
 
 /-- key of the per-indexer `_data_cache`: `'mass'`, or `('vol', TP)` / `TP` -/
 inductive Key where
@@ -390,6 +406,25 @@ def World.F (w : World) (sid : Nat) (d : Dim) (V : List (List Rat)) : Rat :=
   | .vol => w.Fvol sid V
   | .other => 0
 
+def addVec (a b : List Rat) : List Rat := List.zipWith (· + ·) a b
+
+/-- column sums: the per-chemical totals over the rows -/
+def colSum : List (List Rat) → List Rat
+  | [] => []
+  | r :: t => t.foldl addVec r
+
+/-- `stream.mol`, `stream.mass`, `stream.vol`.  Single-phase: the data of `imol` / `imass` / `ivol`.  Multi-phase:
+`imol.data.sum(0)`, `self.mol * MW` (no view involved) and `ivol.data.sum(0)`. -/
+def World.readAgg (w : World) (sid : Nat) (d : Dim) (V : List (List Rat)) : Except Err (World × Option Nat × List Rat) :=
+  let s := w.stream sid
+  match d with
+  | .mol => .ok (w, none, colSum (w.readMol sid))
+  | .mass =>
+    if s.multi then .ok (w, none, mulVec (colSum (w.readMol sid)) (w.MW s.th))
+    else let (w1, vid, vals) := w.readMass sid; .ok (w1, some vid, colSum vals)
+  | .vol => let (w1, vid, vals) := w.readVol sid V; .ok (w1, some vid, colSum vals)
+  | .other => .error .dimension
+
 /-! ### writes -/
 
 def World.scale (w : World) (sid : Nat) (q : Rat) : World :=
@@ -536,6 +571,19 @@ def World.setFlow (w : World) (sid : Nat) (u : String) (ph : Option Char) (i : N
   | .error e => .error e
   | .ok (d, f) => w.putElem sid d ph i (x / f) V
 
+/-- `get_flow(units)` with the default key `...`: all chemicals, through the view of the unit's dimension; a multi-phase
+stream answers with the sums over its phases (`indexer[...]` → `data.sum(0)`). -/
+def World.getFlowAll (w : World) (sid : Nat) (u : String) (V : List (List Rat)) :
+    Except Err (World × Option Nat × List Rat) :=
+  match w.flowUnit u with
+  | .error e => .error e
+  | .ok (d, f) =>
+    match d with
+    | .mol => .ok (w, none, (colSum (w.readMol sid)).map (f * ·))
+    | .mass => let (w1, vid, vals) := w.readMass sid; .ok (w1, some vid, (colSum vals).map (f * ·))
+    | .vol => let (w1, vid, vals) := w.readVol sid V; .ok (w1, some vid, (colSum vals).map (f * ·))
+    | .other => .error .dimension
+
 /-- `get_total_flow(units)` -/
 def World.getTotal (w : World) (sid : Nat) (u : String) (V : List (List Rat)) : Except Err Rat :=
   match w.flowUnit u with
@@ -673,19 +721,29 @@ def World.flowProxy (w : World) (sid : Nat) : World × Nat :=
 
 /-- `stream.phase = c`.  Single-phase: the phase container is written in place (everything that
 shares it sees the change; no cache is touched).  Multi-phase: `to_chemical_indexer`, a new indexer
-whose contents `R` are the sum of the rows; `_streams.clear()`. -/
+whose contents are the column sums of the rows (computed here; `R` is only checked for its shape); `_streams.clear()`. -/
 def World.setPhase (w : World) (sid : Nat) (c : Char) (R : List (List Rat)) : Except Err World :=
   let s := w.stream sid
   if s.multi then
-    (if R.length ≠ 1 then .error .shape else .ok ((w.rebind sid false [] (some c) s.th R).setViews sid []))
+    (if R.length ≠ 1 then .error .shape
+     else .ok ((w.rebind sid false [] (some c) s.th [colSum (w.readMol sid)]).setViews sid []))
   else .ok { w with c := { w.c with phs := upd w.c.phs s.ph c } }
 
+/-- `to_material_indexer(pt)`: every row is added to the row of the phase it is re-filed under (exact label, else the
+other case of the letter); `n` = number of chemicals -/
+def refile (n : Nat) (phases : List Char) (rows : List (List Rat)) (pt : List Char) : List (List Rat) :=
+  pt.zipIdx.map (fun (_, k) =>
+    ((phases.zip rows).filter (fun pr => phaseIndex pt pr.1 == some k)).foldl (fun acc pr => addVec acc pr.2)
+      (List.replicate n 0))
+
 /-- `stream.phases = ps` (`ps` non-empty).  `to_material_indexer` re-files every *non-empty* row under the new
-phases (exact label, else the other case of the letter) and raises `UndefinedPhase` — before anything is rebound —
-when that is impossible.  Phase views whose label can still be filed are re-attached, the others dropped. -/
+phases and raises `UndefinedPhase` — before anything is rebound — when that is impossible.  The new contents are
+computed here (`refile`); `R` is only checked for its shape.  Phase views whose label can still be filed are re-attached,
+the others dropped. -/
 def World.setPhases (w : World) (sid : Nat) (ps : List Char) (R : List (List Rat)) : Except Err World :=
   let s := w.stream sid
   let pt := phaseTuple ps
+  let n := (w.MW s.th).length
   match pt with
   | [] => .error .precondition
   | [c] => w.setPhase sid c R
@@ -696,12 +754,12 @@ def World.setPhases (w : World) (sid : Nat) (ps : List Char) (R : List (List Rat
          .error .undefinedPhase
        else if R.length ≠ pt.length then .error .shape
        else
-         let w1 := w.rebind sid true pt none s.th R
+         let w1 := w.rebind sid true pt none s.th (refile n s.phases (w.readMol sid) pt)
          .ok ((w1.setViews sid ((w.views sid).filter (fun cv => fileable pt cv.1))).reattach sid true false))
     else
       (if !fileable pt (w.c.phs s.ph) && (w.readMol sid).any nonzeroRow then .error .undefinedPhase
        else if R.length ≠ pt.length then .error .shape
-       else .ok ((w.rebind sid true pt none s.th R).setViews sid []))
+       else .ok ((w.rebind sid true pt none s.th (refile n [w.c.phs s.ph] (w.readMol sid) pt)).setViews sid []))
 
 /-! ### links -/
 
@@ -946,6 +1004,10 @@ inductive Op where
   | getProp (s : Nat) (d : Dim) (u : String) (V : Mat)
   | setProp (s : Nat) (d : Dim) (u : String) (x : Rat) (V : Mat)
   | unitFor (d : Dim) (u : String)
+  | scale (s : Nat) (q : Rat)
+  | empty (s : Nat)
+  | readAgg (s : Nat) (d : Dim) (V : Mat)
+  | getFlowAll (s : Nat) (u : String) (V : Mat)
 
 inductive Out where
   | unit
@@ -962,7 +1024,8 @@ def Op.sids : Op → List Nat
   | .sync s _ _ _ _ | .mixInto s _ _ _ | .view s _ | .proxy s | .flowProxy s
   | .readMol s | .readMass s | .readVol s _ | .readF s _ _ | .writeF s _ _ _ | .get s _ _ _ _
   | .put s _ _ _ _ _ | .putRow s _ _ _ _ | .getFlow s _ _ _ _ | .setFlow s _ _ _ _ _ | .getTotal s _ _ | .setTotal s _ _ _
-  | .getData s _ _ _ _ _ | .setData s _ _ _ _ _ _ | .getProp s _ _ _ | .setProp s _ _ _ _ => [s]
+  | .getData s _ _ _ _ _ | .setData s _ _ _ _ _ _ | .getProp s _ _ _ | .setProp s _ _ _ _
+  | .scale s _ | .empty s | .readAgg s _ _ | .getFlowAll s _ _ => [s]
   | .link s o _ _ _ | .copyLike s o _ => [s, o]
 
 /-- the stream an operation would rebind or re-class; refused for the indexer of a phase view (`LockedPhase`), which only
@@ -1027,6 +1090,10 @@ def World.exec (w : World) (op : Op) : Except Err (World × Out) :=
   | .getProp s d u V => (w.getProp s d u V).map (fun x => (w, .num none x))
   | .setProp s d u x V => (w.setProp s d u x V).map (·, .unit)
   | .unitFor d u => (w.viewUnit d u).map (fun f => (w, .num none f))
+  | .scale s q => okShape (w.scale s q) s
+  | .empty s => okShape (w.empty s) s
+  | .readAgg s d V => (w.readAgg s d V).map (fun (w1, vid, r) => (w1, .mat vid [r]))
+  | .getFlowAll s u V => (w.getFlowAll s u V).map (fun (w1, vid, r) => (w1, .mat vid [r]))
 
 def World.step (w : World) (op : Op) : World :=
   match w.exec op with
